@@ -43,10 +43,15 @@ def consts(depth, record, ops=ALL_OPS, inits=INITS):
     return dict(Inits=inits, Ops=set(ops), Depth=depth, Record=record)
 
 
-def emit(depth, simulate=None, seed=0, ops=ALL_OPS, inits=INITS):
+def emit(depth, simulate=None, seed=0, ops=ALL_OPS, inits=INITS, on_batch=None):
+    """on_batch(behaviours) is called for every 3000 behaviours while TLC is still running"""
     name, mod, cfg = tlc.mc("DyadAlg", consts(depth, True, ops, inits), invariants=["Emit"])
-    return tlc.run(name, cfg, extra_modules={name: mod}, workers=1, simulate=simulate,
-                   depth=depth + 4 if simulate else None, seed=seed, timeout=3000)
+    sink = par.Batcher("BEH", 3000, on_batch) if on_batch else None
+    r = tlc.run(name, cfg, extra_modules={name: mod}, workers=1, simulate=simulate,
+                depth=depth + 4 if simulate else None, seed=seed, timeout=3000, sink=sink)
+    if sink is not None:
+        sink.flush()
+    return r
 
 
 # ------------------------------------------------------------------------------------------------
@@ -316,21 +321,22 @@ def run(chk, replay=None):
         plan.append((2, None, 0, ALL_OPS, [INITS[k]]))
         if thorough:
             plan.append((3, None, 0, [o for o in ALL_OPS if o not in ("elem", "diag", "slice")], [INITS[k]]))
+    # focused deeper enumeration: the observers (contractions, products, trace) interleaved with the in-place mutators
+    # (row / column zeroing, +=) - anything an observer remembers must be forgotten when the carrier changes
+    FOCUS = ["contract_batch", "contract_dense", "contract_sparse", "trace", "matvec", "vecmat", "zrows", "zcols", "iadd"]
+    for k in range(len(INITS)):
+        plan.append((3, None, 0, FOCUS if thorough or k < 2 else FOCUS[:2] + FOCUS[3:4] + FOCUS[6:8], [INITS[k]]))
     nsim = 2000 if thorough else 300
     for j in range(12 if thorough else 5):
         plan.append((8, nsim, chk.seed * 7 + j))
     width = 5
     for k in range(0, len(plan), width):
         with cf.ThreadPoolExecutor(max_workers=width) as ex:
-            futs = [ex.submit(emit, *args) for args in plan[k:k + width]]
+            futs = [ex.submit(emit, *args, on_batch=lambda b: check_behaviours(chk, b)) for args in plan[k:k + width]]
             for j in cf.as_completed(futs):
                 r = j.result()
                 chk.transitions += r.generated
                 chk.tlc_runs.append({"module": "DyadAlg", "label": "emit", "generated": r.generated, "wall_s": round(r.wall, 2)})
-                behs = [v[0] for tag, v in r.printed if tag == "BEH"]
-                r.printed = []
-                check_behaviours(chk, behs)
-                del behs, r
             del futs
 
 replay_fn = replay
